@@ -1,7 +1,7 @@
 """C08 -- packets reach exactly their addressee via best routes, and forwarding ends."""
 import itertools, json
 from ipaddress import IPv4Address, IPv4Network
-from lib.common import coq_props, coq_cases, zl, Raw, Opt
+from lib.common import coq_props, coq_cases, coq_compute, zl, Raw, Opt
 from lib import world, family, gen_tie
 
 PREFIXES = [("10.0.0.0", "255.0.0.0"), ("10.1.0.0", "255.255.0.0"), ("10.1.1.0", "255.255.255.0"), ("10.1.1.128", "255.255.255.128"),
@@ -210,6 +210,45 @@ def looped_l2(ck):
     mon.check_ttl()
 
 
+def host_hop_cases(ck, coq_in):
+    """SessionManager.resolve_outbound_transmission_details on a host whose ARP cache already knows on-link neighbours, the
+    gateway AND off-link peers (learned from frames a neighbour router delivered): the MAC it picks must be that of the model's
+    next hop -- the destination itself on-link, else the default gateway."""
+    from ipaddress import IPv4Address
+    from primaite.simulator.sim_container import Simulation
+    from primaite.simulator.network.hardware.nodes.host.computer import Computer
+    rng = ck.rng
+    for k in range(ck.n(24, 120)):
+        mask = rng.choice(["255.255.255.0", "255.255.255.128", "255.255.0.0"])
+        # (a gateway outside the interface's own subnet is a configuration error: PrimAITE recurses without end on it)
+        gw = rng.choice(["10.0.1.1", "10.0.1.1", None] + ([] if mask.endswith("128") else ["10.0.1.254"]))
+        sim = Simulation()
+        cfgd = {"type": "computer", "hostname": "hh%d" % k, "ip_address": "10.0.1.10", "subnet_mask": mask, "start_up_duration": 0}
+        if gw:
+            cfgd["default_gateway"] = gw
+        h = Computer.from_config(config=cfgd)
+        o = Computer.from_config(config={"type": "computer", "hostname": "oo%d" % k, "ip_address": "10.0.1.20", "subnet_mask": mask, "start_up_duration": 0})
+        for n in (h, o):
+            sim.network.add_node(n); n.power_on()
+        sim.network.connect(h.network_interface[1], o.network_interface[1])
+        object.__setattr__(o.network_interface[1], "receive_frame", lambda frame: True)
+        known = ["10.0.1.1", "10.0.1.254", "10.0.1.20", "10.0.1.200", "10.0.2.10", "10.0.9.9", "172.16.0.5"]
+        macs = {ip: "aa:bb:00:00:%02x:%02x" % (int(ip.split(".")[2]) % 256, int(ip.split(".")[3])) for ip in known}
+        for ip in known:
+            if rng.random() < 0.85:
+                h.software_manager.arp.add_arp_cache_entry(ip_address=IPv4Address(ip), mac_address=macs[ip], network_interface=h.network_interface[1])
+        cached = {str(ip): e.mac_address for ip, e in h.software_manager.arp.arp.items()}
+        by_mac = {m: ip for ip, m in macs.items()}
+        got = []
+        for d in known:
+            res = h.session_manager.resolve_outbound_transmission_details(dst_ip_address=IPv4Address(d))
+            mac = res[1]
+            got.append(ipi(by_mac[mac]) if mac in by_mac else -2)
+        # what the model's next hop resolves to with this cache (an uncached next hop cannot be resolved: nobody answers ARP here)
+        coq_in.append((("(%d, %d, %s, %s)" % (ipi("10.0.1.10"), ipi(mask), "None" if not gw else "(Some %d)" % ipi(gw), zl([ipi(d) for d in known]))), got, cached))
+        ck.case(canon=("host-hop", gw, mask, tuple(sorted(cached))), nontrivial=True)
+
+
 def two_gateways(ck):
     """a host LAN with two routers: the default gateway's best route to the far subnet points back into the LAN it arrived from
     (hairpin), and the far peer reaches the host through the other router -- so the host learns the peer's address from a
@@ -299,6 +338,27 @@ def run(ck):
     if mism is not None:
         ck.obligation("correspondence RouteTable.find_best_route = Model.Route.find_best on %d tables x %d destinations" % (len(coq_in), len(DESTS)),
                       "correspondence", not mism, "" if not mism else "first mismatch: case %d model=%s impl=%s input=%s" % (mism[0][0], mism[0][1], coq_in[mism[0][0]][1], coq_in[mism[0][0]][0][:400]))
+    hops = []
+    host_hop_cases(ck, hops)
+    try:
+        outs = coq_compute(ck, "From PV Require Import Model.Route.", ["run_hops %s" % h[0] for h in hops], name="c08_hops")
+    except RuntimeError as e:
+        ck.broken("correspondence Model.Route.run_hops", str(e))
+        outs = None
+    if outs is not None:
+        bad = []
+        for (term, got, cached), model in zip(hops, outs):
+            from ipaddress import IPv4Address
+            # decided cases only: the model's next hop is in the cache (an on-link neighbour that does not answer ARP is outside
+            # the property: the implementation then tries its gateway)
+            want = [(m if (m != -2 and str(IPv4Address(m)) in cached) else None) for m in model]
+            if any(w is not None and w != g for w, g in zip(want, got)):
+                j = next(i for i in range(len(got)) if want[i] is not None and got[i] != want[i])
+                bad.append((term, j, got[j], want[j]))
+                ck.violation("host-next-hop-not-the-model's", "a host with interface / gateway %s and ARP cache %s sends to destination #%d via the MAC of %s; on-link => the destination itself, "
+                             "off-link => the default gateway gives %s" % (term, sorted(cached), j, got[j], want[j]), {"case": term, "cache": sorted(cached), "destination_index": j})
+        ck.obligation("correspondence host next hop (SessionManager.resolve_outbound_transmission_details with warm and poisoned ARP caches) = Model.Route.host_next_hop on %d hosts" % len(hops),
+                      "correspondence", not bad, "" if not bad else str(bad[0]))
     for k in range(ck.n(3, 9)):
         topo_case(ck, ck.seed + k, toggles=ck.n(2, 6))
     looped_l2(ck)
